@@ -62,8 +62,10 @@ def fixed_cfg(rng, drop_cli=None, drop_srv=None, mtu=None, slow=False, nat=False
     return c
 
 
-def connect(rng, P, cfg, port, srv, cli, sip=None, style=None, a=None, ss=None, cs=None, ctx="top", bind_cli=None, close_first=False, move_p=0.0, new_p=0.0):
-    """acceptor (new unless given) + accept into ss + connect of cs; returns names and handler contexts"""
+def connect(rng, P, cfg, port, srv, cli, sip=None, style=None, a=None, ss=None, cs=None, ctx="top", bind_cli=None, close_first=False, move_p=0.0, new_p=0.0, late_accept=None):
+    """acceptor (new unless given) + accept into ss + connect of cs; returns names and handler contexts.
+    `late_accept` = D (ns): the connect is issued first and the accept only D ns later (from a timer armed in ctx), so
+    that the SYN is queued on the acceptor and the connection is attached to the accepted socket from that queue"""
     sip = sip or rng.choice(cfg.v4(srv))
     new_acc = a is None
     if a is None:
@@ -85,11 +87,20 @@ def connect(rng, P, cfg, port, srv, cli, sip=None, style=None, a=None, ss=None, 
     if rng.random() < new_p:
         # socket-returning overload: the accepted socket is a new object, move-constructed into place
         style = "accept_new"; ss = P.sock(); fresh = True
-    if close_first and style != "accept_new": P.do(ctx, "%s.close" % ss)
-    P.do(ctx, "%s.%s %s h%d" % (a, style, ss, hacc))
+    actx = ctx
+    if late_accept is not None:
+        k = P.nt; P.nt += 1; ht = P.h(); actx = "h%d" % ht
+        P.do(ctx, "t%d.expires_after %d" % (k, late_accept))
+        P.do(ctx, "t%d.wait h%d" % (k, ht))
+    else:
+        if close_first and style != "accept_new": P.do(ctx, "%s.close" % ss)
+        P.do(ctx, "%s.%s %s h%d" % (a, style, ss, hacc))
     if bind_cli is not None:
         P.do(ctx, "%s.open v4" % cs); P.do(ctx, "%s.bind %s" % (cs, ep(bind_cli, 0)))
     P.do(ctx, "%s.connect %s h%d" % (cs, ep(sip, port), hcon))
+    if late_accept is not None:
+        if close_first and style != "accept_new": P.do(actx, "%s.close" % ss)
+        P.do(actx, "%s.%s %s h%d" % (a, style, ss, hacc))
     # a connected socket moved to another object (before anything is started on it) is the same connection
     if rng.random() < move_p:
         n = P.sock(); P.do("h%d" % hcon, "%s.move %s" % (cs, n)); cs = n
@@ -98,7 +109,7 @@ def connect(rng, P, cfg, port, srv, cli, sip=None, style=None, a=None, ss=None, 
         n = P.sock(); P.do("h%d" % hacc, "%s.move %s" % (ss, n)); ss = n; moved = True
     for c, s in (("h%d" % hcon, cs), ("h%d" % hacc, ss)):
         P.do(c, "%s.local" % s); P.do(c, "%s.remote" % s)
-    return dict(a=a, ss=ss, cs=cs, hacc="h%d" % hacc, hcon="h%d" % hcon, sip=sip, port=port, fresh=fresh, moved=moved)
+    return dict(a=a, ss=ss, cs=cs, hacc="h%d" % hacc, hcon="h%d" % hcon, sip=sip, port=port, fresh=fresh, moved=moved, late=late_accept)
 
 
 def writer(rng, P, s, ctx, stream, total, sizes, bufs=(1, 1, 2, 3)):
